@@ -1738,6 +1738,76 @@ fn array_lit_probe(rep: &Report) {
     }
 }
 
+/// The same for DENSE array values (the representation the simulator and the evaluator work with): the same
+/// contents - including contents in which two values occur equally often, so that no value is "the" default -
+/// must give the same reference every time, in one context.
+fn dense_array_lit_probe(rep: &Report) {
+    use baa::{ArrayMutOps, ArrayValue};
+    let mut n = 0u64;
+    // (index width, data width, contents by index)
+    let mut shapes: Vec<(u32, u32, Vec<u64>)> = vec![];
+    for dw in [1u32, 2, 3, 4, 8, 9, 16, 64, 65, 80] {
+        let m = if dw >= 64 { u64::MAX } else { (1u64 << dw) - 1 };
+        shapes.push((1, dw, vec![0, m]));
+        shapes.push((1, dw, vec![m, m]));
+        shapes.push((2, dw, vec![1 & m, 0, 1 & m, 0]));
+        shapes.push((2, dw, vec![m, m >> 1, m >> 1, m]));
+        shapes.push((2, dw, vec![0, 1 & m, m, m >> 1]));
+        shapes.push((3, dw, vec![5 & m, 5 & m, 6 & m, 6 & m, 7 & m, 7 & m, m, m]));
+        shapes.push((3, dw, vec![0, 0, 0, m, m, m, 1 & m, 1 & m]));
+    }
+    for (iw, dw, vals) in shapes {
+        let build = || -> ArrayValue {
+            let mut a = ArrayValue::new_dense(iw, &pvcore::evalref::bv_to_baa(&Bv::zero(dw)));
+            for (i, v) in vals.iter().enumerate() {
+                a.store(&pvcore::evalref::bv_to_baa(&Bv::from_u64(iw, i as u64)), &pvcore::evalref::bv_to_baa(&Bv::from_u64(dw, *v)));
+            }
+            a
+        };
+        let r = catch(|| {
+            let mut ctx = Context::default();
+            let all = (0..24).map(|_| ctx.lit(baa::Value::Array(build()))).collect::<Vec<_>>();
+            // the literal denotes the contents it was built from
+            let denotes = match pvcore::evalref::eval_ref(&ctx, all[0], &Default::default()) {
+                pvcore::bv::Val::A(a) => a.table().iter().map(|b| b.bit_str()).collect::<Vec<String>>(),
+                _ => vec![],
+            };
+            (all, denotes)
+        });
+        n += 1;
+        rep.add("dense_array_literal_probes", 1);
+        let wc = if dw <= 8 { "dw<=8" } else if dw <= 64 { "dw9-64" } else { "dw65+" };
+        match r {
+            Ok((all, denotes)) => {
+                let want: Vec<String> = vals.iter().map(|v| Bv::from_u64(dw, *v).bit_str()).collect();
+                if denotes != want {
+                    rep.violation(Violation {
+                        sig: format!("C12|denotation|lit:DenseArrayValue|{wc}|"),
+                        what: format!("Context::lit of the dense array value ({iw}->{dw}) with contents {want:?} builds an expression that denotes {denotes:?}"),
+                        case: json!({"history": [], "dense_array_literal": {"iw": iw, "dw": dw, "vals": vals}}),
+                        order: (1u64 << 61) + 2000 + n,
+                    });
+                }
+                if all.iter().any(|r| *r != all[0]) {
+                    let distinct: std::collections::BTreeSet<usize> = all.iter().map(|r| usize::from(*r)).collect();
+                    rep.violation(Violation {
+                        sig: format!("C12|dup|lit:DenseArrayValue|{wc}|"),
+                        what: format!("Context::lit of one and the same dense array value ({iw}->{dw}, contents {vals:?}), built 24 times in one context, returned {} different references", distinct.len()),
+                        case: json!({"history": [], "dense_array_literal": {"iw": iw, "dw": dw, "vals": vals}}),
+                        order: (1u64 << 61) + 1000 + n,
+                    });
+                }
+            }
+            Err(p) => rep.violation(Violation {
+                sig: format!("C12|panic|lit:DenseArrayValue|{}|{wc}", p.file()),
+                what: format!("Context::lit of a dense array value ({iw}->{dw}, contents {vals:?}) panics: {} ({})", p.msg, p.short_loc()),
+                case: json!({"history": [], "dense_array_literal": {"iw": iw, "dw": dw, "vals": vals}}),
+                order: (1u64 << 61) + 1000 + n,
+            }),
+        }
+    }
+}
+
 pub fn run(opts: &Opts, rep: &Report) {
     let tier = match opts.mode {
         Mode::Run(t) => t,
@@ -1745,6 +1815,7 @@ pub fn run(opts: &Opts, rep: &Report) {
     };
     let budget = Budget::new(opts.budget_s);
     array_lit_probe(rep);
+    dense_array_lit_probe(rep);
     let mut bases = Bases { b: vec![] };
     for level in FILLS {
         match Base::build(level) {
